@@ -12,98 +12,7 @@ use serde_json::json;
 use std::collections::{HashMap, HashSet};
 use std::sync::OnceLock;
 
-pub struct Truth {
-    pub rdh_starts: HashMap<u64, Rdh>,
-    pub word_starts: HashSet<u64>,
-    pub len: u64,
-}
-
-pub fn truth_of(bytes: &[u8]) -> Truth {
-    let (walked, _) = walk(bytes);
-    let mut rdh_starts = HashMap::new();
-    let mut word_starts = HashSet::new();
-    for w in &walked {
-        rdh_starts.insert(w.offset, w.rdh.clone());
-        let slot = if w.rdh.data_format() == 0 { 16 } else { 10 };
-        let mut o = w.payload_start;
-        while o + 10 <= w.payload_end {
-            word_starts.insert(o as u64);
-            o += slot;
-        }
-    }
-    Truth {
-        rdh_starts,
-        word_starts,
-        len: bytes.len() as u64,
-    }
-}
-
-fn ending_at(text: &str) -> Option<u64> {
-    static RE: OnceLock<Regex> = OnceLock::new();
-    let re = RE.get_or_init(|| Regex::new(r"ending at 0x([0-9A-F]+)").unwrap());
-    re.captures(text).and_then(|c| u64::from_str_radix(&c[1], 16).ok())
-}
-
-/// the `current :` context row of an RDH message as whitespace-free string
-fn current_row(text: &str) -> Option<String> {
-    for l in text.lines() {
-        if let Some(rest) = l.trim_start().strip_prefix("current :") {
-            let rest = rest.split("<---").next().unwrap_or("");
-            return Some(rest.chars().filter(|c| !c.is_whitespace()).collect());
-        }
-    }
-    None
-}
-
-/// Returns Err(signature, description) if the message is not truthful.
-pub fn check_message(m: &ErrMsg, bytes: &[u8], tr: &Truth) -> Result<&'static str, (String, String)> {
-    if m.offset >= tr.len {
-        return Err(("C07:offset-outside-input".into(), format!("offset {:#X} >= input length {:#X}", m.offset, tr.len)));
-    }
-    let first_code = m.codes.first().map(|s| s.as_str()).unwrap_or("");
-    let is_rdh_level = matches!(first_code, "10" | "11") || m.text.contains("Payload error following RDH");
-    if is_rdh_level {
-        let Some(r) = tr.rdh_starts.get(&m.offset) else {
-            return Err((format!("C07:rdh-msg-not-at-rdh:E{first_code}"), format!("RDH-level message at {:#X} which is not the start of an RDH of the chain", m.offset)));
-        };
-        if let Some(row) = current_row(&m.text) {
-            let want: String = r.view_tokens().concat();
-            if row != want {
-                return Err(("C07:rdh-context-row-mismatch".into(), format!("`current :` row `{row}` != decode of the 64 bytes at the offset `{want}`")));
-            }
-        }
-        return Ok("rdh");
-    }
-    // everything else is about a payload word
-    if !tr.word_starts.contains(&m.offset) {
-        return Err((format!("C07:word-msg-not-at-word:E{first_code}"), format!("word-level message at {:#X} which is not the start of a payload word", m.offset)));
-    }
-    if let Some(d) = m.dump {
-        let o = m.offset as usize;
-        if bytes[o..o + 10] != d {
-            return Err((
-                format!("C07:quoted-bytes-differ:E{first_code}"),
-                format!("message quotes [{}] but the input holds [{}] at {:#X}", word_hex(&d), word_hex(&bytes[o..o + 10]), m.offset),
-            ));
-        }
-    }
-    if matches!(first_code, "59" | "701" | "72" | "73" | "74" | "75") && m.dump.is_none() {
-        if first_code == "59" {
-            if bytes[m.offset as usize + 9] != ID_TDT {
-                return Err(("C07:E59-not-at-tdt".into(), "E59 is about a TDT but the word at the offset does not carry the TDT id".into()));
-            }
-        } else if let Some(e) = ending_at(&m.text) {
-            if !tr.word_starts.contains(&e) || e >= tr.len || bytes[e as usize + 9] != ID_TDT {
-                return Err((format!("C07:frame-end-not-at-tdt:E{first_code}"), format!("`ending at {e:#X}` is not the start of a TDT word")));
-            }
-            if e < m.offset {
-                return Err((format!("C07:frame-end-before-start:E{first_code}"), format!("frame end {e:#X} lies before frame start {:#X}", m.offset)));
-            }
-        }
-        return Ok("frame");
-    }
-    Ok("word")
-}
+pub use crate::truth::*;
 
 fn gen_input(t0: &mut Tape, labels: &mut Vec<String>) -> (Vec<u8>, Vec<Rdh>) {
     let mut g = t0.fork(8);
